@@ -20,7 +20,10 @@ ENTRIES = ("scanDocument", "scanFirst", "scanNext", "loadGrammar")
 # per-parse state holders reached from the scanners
 HOLDERS = ["ReaderMgr", "ElemStack", "WFElemStack", "ValidationContextImpl", "IdentityConstraintHandler", "SchemaValidator",
            "DTDValidator", "XMLBufferMgr", "GrammarResolver", "ValueStoreCache", "XPathMatcherStack", "FieldActivator",
-           "XMLValidator", "NamespaceScope"]
+           "XMLValidator", "NamespaceScope", "SAX2XMLReaderImpl", "SAXParser", "AbstractDOMParser", "DOMLSParserImpl", "XercesDOMParser"]
+# API adapters: their per-parse state is written by the handler callbacks the scanners invoke
+ADAPTERS = {"SAX2XMLReaderImpl", "SAXParser", "AbstractDOMParser", "DOMLSParserImpl", "XercesDOMParser"}
+ADAPTER_ENTRIES = ("parse", "parseURI", "parseWithContext", "parseFirst", "loadGrammar")
 HOLDER_RESET_ROOTS = ["ReaderMgr::reset"]   # run by the ReaderMgrResetType janitor at the end of every parse
 
 # members written while scanning and deliberately not reset (one symbol, one reason)
@@ -106,10 +109,21 @@ def reset_rule(rep, f):
     rep.floor("C15.a/scanner", nfields, 90)
     # holders
     nh = 0
+    # functions named reset*/clear* of a holder that the scanners call (e.g. resetDocType at DOCTYPE start) reset state too
+    named_resets = set(q for q in allscan if q.split("::")[-1].startswith(("reset", "clear")) and q.rsplit("::", 1)[0] in set(HOLDERS))
+    for q in list(named_resets):
+        named_resets |= R.closure(q.rsplit("::", 1)[0], [q])
     for H in HOLDERS:
         hf = set(R.fam(H))
-        Wf = R.writes([q for q in allscan if q.rsplit("::", 1)[0] in hf], hf)
-        Rf = R.writes([q for q in allreset if q.rsplit("::", 1)[0] in hf], hf)
+        sf = [q for q in allscan if q.rsplit("::", 1)[0] in hf and q not in named_resets]
+        rf = [q for q in (allreset | named_resets) if q.rsplit("::", 1)[0] in hf]
+        if H in ADAPTERS:
+            # only the handler callbacks (overrides of the scanner-facing interfaces) run while scanning; the public
+            # parse entry points clear adapter state before they start the scanner
+            sf = [q for q in sf if any(fn.get("ovr") for fn in f.fns_named(q))]
+            rf += [c + "::" + n for c in hf for n in ADAPTER_ENTRIES if (c + "::" + n) in f.by_q]
+        Wf = R.writes(sf, hf)
+        Rf = R.writes(rf, hf)
         for fld, ws in sorted(Wf.items()):
             direct = [w for w in ws if w[1] in W_HOW]
             if not direct:
